@@ -160,6 +160,13 @@ class Section(Entity):
             for val in vals:
                 if DataType.get_dtype(val) != dtype:
                     raise TypeError("Array contains inconsistent values.")
+
+            # A numpy array carries its own dtype, which is what the values
+            # setter compares with the Property's data type. Refuse a mismatch
+            # here, before the Property is created.
+            if hasattr(vals, "dtype") and vals.dtype != dtype:
+                raise TypeError("Array data type '{}' is inconsistent with the "
+                                "Property's data type '{}'".format(vals.dtype, dtype))
         shape = (len(vals),)
 
         prop = Property.create_new(self.file, self, properties,
